@@ -61,9 +61,13 @@ fn shared_description_stress(ctx: &Ctx) {
     ctx.par_for(
         shards,
         |k| {
-            let script = format!(
-                "i=0\nwhile [ $i -lt {rounds} ]; do\n  i=$((i+1))\n  {{ gen 5000 {k}1 & gen 5000 {k}2 & gen 5000 {k}3 & gen 5000 {k}4; wait; nbfd e; }} | tally t\ndone\n"
-            );
+            // even shards: four writers on one pipe end; odd shards: three readers on one pipe end
+            let body = if k % 2 == 0 {
+                format!("{{ gen 5000 {k}1 & gen 5000 {k}2 & gen 5000 {k}3 & gen 5000 {k}4; wait; nbfd e; }} | tally t")
+            } else {
+                format!("gen 20000 {k} 64 | {{ relay <&0 & relay <&0 & relay; wait; nbfd e; }} | tally t")
+            };
+            let script = format!("i=0\nwhile [ $i -lt {rounds} ]; do\n  i=$((i+1))\n  {body}\ndone\n");
             let mut cmd = std::process::Command::new(std::env::current_exe().unwrap());
             cmd.args(["real-shell", "-c", &script]).env_clear().env("PATH", "/bin:/usr/bin").env("LANG", "C");
             let out = match crate::util::run_child(cmd, None, 300) {
